@@ -436,6 +436,12 @@ func (r *Run) walkModel(fr *frame, top StrV, outer func(StrV) StrV, dotOfFileFS,
 		}
 		return r.callFunc(fr, f, []Value{p}, nil).(BoolV).C
 	}
+	notDir := func() Value {
+		if v := gp.Var("verifErrNotDir"); v != nil {
+			return *r.global(v)
+		}
+		return *r.global(gp.Var("verifErrRefused"))
+	}
 	list := r.callFunc(fr, gp.Func("vfsList"), []Value{top}, nil).(SliceV)
 	notExist := *r.global(r.eng.prog.ImportedPackage("io/fs").Var("ErrNotExist"))
 	skipAll := *r.global(r.eng.prog.ImportedPackage("io/fs").Var("SkipAll"))
@@ -452,7 +458,7 @@ func (r *Run) walkModel(fr *frame, top StrV, outer func(StrV) StrV, dotOfFileFS,
 		// WalkDir hands that error to fn. Walking a file inside the FS: it is visited as a single entry.
 		var werr Value = Iface{}
 		if rootIsDot {
-			werr = *r.global(gp.Var("verifErrRefused"))
+			werr = notDir()
 		}
 		res := r.call(fr, fn, []Value{outer(strLit(".")), Iface{}, werr}).(Iface)
 		if res.T != nil && (r.equal(nil, res, skipAll).C || r.equal(nil, res, skipDir).C) {
@@ -461,6 +467,10 @@ func (r *Run) walkModel(fr *frame, top StrV, outer func(StrV) StrV, dotOfFileFS,
 		return res
 	}
 	if list.Nil || len(list.Data) == 0 {
+		// nothing at the walk's root: "does not exist", unless a component of the path is a regular file (ENOTDIR)
+		if r.concreteInt(r.callFunc(fr, gp.Func("vfsStat"), []Value{top}, nil), "vfsStat") == 3 {
+			notExist = notDir()
+		}
 		res := r.call(fr, fn, []Value{outer(strLit(".")), Iface{}, notExist}).(Iface)
 		if res.T != nil && (r.equal(nil, res, skipAll).C || r.equal(nil, res, skipDir).C) {
 			return Iface{}
